@@ -33,7 +33,8 @@ func init() {
 		hm := c.Deviate(1 << uint(nn))
 		// 1: IgnoreUnknown set as well; 2: the parser's flag sits in a group added after the commands and after a parse selecting each of them;
 		// 3: an int option of the parser takes its default from an environment variable that holds an unconvertible value (every vector is then faulty)
-		extra := c.Deviate(4)
+		// 4: the parser has an argument-taking option -o/--out: a missing argument (at the end, or for -o in the middle of a cluster) is a fault like any other
+		extra := c.Deviate(5)
 		mc := c.Choose(5)     // Execute, Execute+error, CommandHandler, CommandHandler+error, completion mode
 		mode, inject := mc/2, mc%2 == 1
 		key := fmt.Sprintf("s%d/o%d/r%d/p%d/h%d/e%d", si, om, rq, ps, hm, extra)
@@ -48,7 +49,7 @@ func init() {
 					ps = 1
 				}
 			}
-			td = buildTree(par, 0, om, 0, false, true, rq, ps, hm, extra == 2, extra == 3, 0)
+			td = buildTree(par, 0, om, 0, false, true, rq, ps, hm, extra == 2, extra == 3, map[bool]int{true: 2}[extra == 4])
 			if td != nil && extra == 1 {
 				td.d.Options = flags.HelpFlag | flags.PassDoubleDash | flags.IgnoreUnknown
 			}
@@ -61,6 +62,10 @@ func init() {
 			td.d.Options = flags.HelpFlag | flags.PassDoubleDash
 		}
 		units := append(append([][]string{}, td.units...), c09Extra...)
+		if extra == 4 {
+			units = append(units, []string{"-o"}, []string{"-pop", "w1"}, []string{"-po", "w1"})
+			c.Hit("argument-taking-option")
+		}
 		maxDepth := 3
 		if (c.Thorough && nn <= 3) || nn <= 2 {
 			maxDepth = 4
@@ -197,11 +202,11 @@ func init() {
 		Body:       body,
 		DevBound:   func(th bool) int { return 1 },
 		Rule: "every command tree with <= 3 (quick) / <= 4 (thorough) commands and depth <= 3 with an executable command at every node, HelpFlag set; one deviation from the plain tree at a time: " +
-			"subcommands-optional on any subset of nodes incl. the parser, a required option (hidden as well on even nodes) on any node, required positionals on any node, any subset of commands hidden, IgnoreUnknown set in addition (together with an int positional), the parser's flag in a group added after the commands and after a parse that selected each of them, an []int option of the parser whose environment default (three values, env-delim) does not convert in the middle (together with an optional int positional); " +
+			"subcommands-optional on any subset of nodes incl. the parser, a required option (hidden as well on even nodes) on any node, required positionals on any node, any subset of commands hidden, IgnoreUnknown set in addition (together with an int positional), the parser's flag in a group added after the commands and after a parse that selected each of them, an []int option of the parser whose environment default (three values, env-delim) does not convert in the middle (together with an optional int positional), an argument-taking option -o/--out of the parser with the extra tokens {-o, -pop w1, -po w1}: its argument missing at the end of the vector or because -o is not the last letter of its cluster; " +
 			"x {Execute, CommandHandler, completion mode} x {command succeeds, command returns an error} x every sequence of <= 3 tokens (<= 4 on trees of <= 2 commands quick / <= 3 commands thorough) over command names, every node's flag and the fault tokens " +
 			"{unknown option, argument to a flag, --help, -h, -h followed by an unknown character in one cluster, unknown word, a word and a number (the required positional is an int on some nodes: conversion faults, also after the -- terminator)}; this contains every single fault at every position of every valid vector of that length; oracle = CLM verdict vs call log",
 		Assumptions:  []string{"when no command is active there is nothing to Execute; a CommandHandler is still called once with a nil command (as its documentation says)"},
-		RequiredHits: []string{"completion-mode", "clean|Execute|calls=1", "clean|CommandHandler|calls=1", "clean|Execute|calls=0", "error-passed-through", "fault|help", "fault|unknown flag", "fault|required", "fault|command required", "fault|unknown command", "fault|no argument for bool", "bad-environment-default"},
+		RequiredHits: []string{"completion-mode", "clean|Execute|calls=1", "clean|CommandHandler|calls=1", "clean|Execute|calls=0", "error-passed-through", "fault|help", "fault|unknown flag", "fault|required", "fault|command required", "fault|unknown command", "fault|no argument for bool", "fault|expected argument", "bad-environment-default", "argument-taking-option"},
 		Bound:        [2]string{"token sequences <= 3, trees <= 3 commands, <= 1 declaration deviation", "token sequences <= 4 (trees <= 3 commands) / <= 3 (4 commands), <= 1 declaration deviation"},
 		BudgetS:      [2]int{170, 1500},
 	})
